@@ -35,7 +35,8 @@ def gen(W):
     # extra field material
     extra = []
     for _ in range(W.draw(5)):
-        nm = W.choice(CGI_SHADOW + [b"X-Foo", b"X_Foo", b"x-foo", b"X-Foo-Bar", b"X_Foo-Bar", b"Accept"])
+        nm = W.choice(CGI_SHADOW + [b"X-Foo", b"X_Foo", b"x-foo", b"X-Foo-Bar", b"X_Foo-Bar", b"Accept", b"ACCEPT", b"accept",
+                                    b"X-Forwarded-For", b"X-Forwarded-Host", b"X-Forwarded-Proto", b"Forwarded"])
         extra.append((nm, W.choice(reqgen.FIELD_VALUES)))
     m["fields"][1:1] = extra
     m["target"] = m["target"].replace(b"#c", b"")
@@ -50,6 +51,8 @@ def gen(W):
     # a second, plain request behind the first one: its environ must be its own
     sc["follower"] = W.chance(0.4)
     sc["cut2"] = W.draw(12)
+    # a proxy is configured but this peer is not it, and clearing is off: every field still reaches the application
+    sc["other_proxy"] = W.chance(0.3)
     return sc
 
 
@@ -114,6 +117,9 @@ def run_one(tapes, tier, scenario=None):
                  inbuf_overflow=sc["inbuf_overflow"], recv_bytes=sc["recv_bytes"], clear_untrusted_proxy_headers=False)
     if sc["unix"]:
         knobs["unix_socket"] = "/tmp/sim-waitress.sock"
+    if sc.get("other_proxy"):
+        knobs.update(trusted_proxy="10.250.0.1", trusted_proxy_headers={"x-forwarded-for", "x-forwarded-host"},
+                     trusted_proxy_count=1)
     sim = Simulation(tapes, knobs=knobs, net=NetConfig(), sched={"kind": "rtb"}, unix=sc["unix"], horizon=60.0)
     k = sim.k
     app = ScriptedApp(sim, {}, default={"chunks": [b"ok"], "cl": 2, "read_input": True, "keep_environ": True})
